@@ -38,6 +38,7 @@ abbrev trace (st : Store) (ops : List Op) : List (Nat × Ev) := (runT (State.ini
 theorem C16_gen_agrees :
     Gen.uploadReqQ = some reqQ ∧ Gen.uploadMaxRequestLength = some maxReqLen ∧
     Gen.uploadRequestGuards = expectedRequestGuards ∧
+    Gen.uploadHeadDropLimit = expectedHeadDropLimit ∧
     Gen.uploadCounterSites = expectedCounterSites ∧
     Gen.uploadCounterRefs = expectedCounterRefs := by decide
 
